@@ -42,8 +42,8 @@ func (r *rng) intn(n int) int {
 	return int(r.next() % uint64(n))
 }
 func (r *rng) rangeIncl(lo, hi int) int { return lo + r.intn(hi-lo+1) }
-func (r *rng) chance(pct int) bool       { return r.intn(100) < pct }
-func (r *rng) pick(xs ...int) int        { return xs[r.intn(len(xs))] }
+func (r *rng) chance(pct int) bool      { return r.intn(100) < pct }
+func (r *rng) pick(xs ...int) int       { return xs[r.intn(len(xs))] }
 
 // ---------------------------------------------------------------- stats / plumbing
 
@@ -92,6 +92,14 @@ type base struct {
 func (b *base) fail(prop, sig, detail string) {
 	fmt.Fprintf(b.out, "ORACLE-FAIL property=%s sig=%s step=%d %s\n", prop, sig, b.step, detail)
 	b.st.oracleFail++
+}
+
+// resKey is the statistics key of a result line: kind:ok, kind:ok:<0|1> for M and S, kind:err:<what>.
+func resKey(kind string, rf []string) string {
+	if len(rf) > 2 && (rf[1] == "err" || kind == "M" || kind == "S") {
+		return kind + ":" + rf[1] + ":" + rf[2]
+	}
+	return kind + ":" + rf[1]
 }
 
 func b2i(b bool) int {
